@@ -982,7 +982,7 @@ MEMETIC = ("MemeticSteepest", "MemeticStochastic", "MemeticMutatorA", "MemeticMu
 
 
 def gen_memetic(rnd, tier):
-    reps = 3 if tier == "quick" else 40
+    reps = 3 if tier == "quick" else 30
     for algo in MEMETIC:
         for r in range(reps):
             for cons in ("none", "feasible", "mixed"):
